@@ -94,7 +94,7 @@ func RandomScript(r *hx.Rand, n int, line uint64, poolLines int, o GenOpts) []Op
 			if o.RandomPIDs {
 				pid = uint32(r.Intn(o.PIDs + 1))
 			} else {
-				pid = 1 + uint32((la/line)%uint64(o.PIDs))
+				pid = 1 + uint32((la/64)%uint64(o.PIDs)) // a function of the 64-byte line: the largest block size used
 			}
 		}
 		var size uint64
